@@ -536,6 +536,7 @@ def align_variable_names_with_convention(
     blacklisted_names = (
         tracing.get_imported_names(ast_tree)
         | tracing.get_defined_names(ast_tree)
+        | {name for _, name in _iter_identifier_mentions(ast_tree)}
         | constants.BUILTIN_FUNCTIONS
         | constants.PYTHON_KEYWORDS
     )
